@@ -905,6 +905,13 @@ func checkWhoMayDestroy(c *Ctx, ruleID string) {
 				return
 			}
 			name := FuncName(fn)
+			if lo := lexicalOutermost(fn); gNewFuncs[lo] && fn == lo {
+				// a helper the reference tree does not have acts for the one reference function all its uses
+				// come from (the path it removes is still judged by that entry's rule)
+				if o := ownerOfNew(lo, 4); o != nil {
+					name = FuncName(o)
+				}
+			}
 			if strings.HasPrefix(pkgOf(fn), repoMod+"/cmd/massminercli") {
 				// separate client binary: it has no access to the miner's plot directories by code path
 				c.OK(ruleID, "cli:"+name+"|"+op, c.Pos(in.Pos()), "client binary, outside the miner process")
